@@ -1,3 +1,3 @@
 From Coq Require Import ExtrOcamlBasic ZArith.
-From RtoscV Require Import Ports.NameModel Ports.PathModel Ports.WalkModel.
-Extraction "model.ml" Z.add Z.mul Z.opp walk apropos.
+From RtoscV Require Import Ports.NameModel Ports.PathModel Ports.WalkModel Ports.NamesModel.
+Extraction "model.ml" Z.add Z.mul Z.opp walk apropos names_ok render_port.
